@@ -227,17 +227,182 @@ theorem walkEntries_files (c : Cfg) (f : Faults) (p : Path) (gi : Option PatSet)
           exact ⟨r, List.mem_append_right _ hr, h⟩
 end
 
+/-- path, kind and size of a record (what does not depend on the chain of directories above) -/
+def lite (r : FileRec) : Path × Kind × Nat := (r.path, r.kind, r.size)
+
+mutual
+theorem allFiles_lite (p : Path) : ∀ (n : Node) (anc anc' : List DirInfo),
+    (allFiles p anc n).map lite = (allFiles p anc' n).map lite
+  | .file k sz, _, _ => by simp [allFiles, lite]
+  | .dir gi es, anc, anc' => by
+    simp only [allFiles]
+    exact allFilesList_lite p gi es anc anc' 0 0
+theorem allFilesList_lite (p : Path) (gi : Option PatSet) : ∀ (es : List (String × Node)) (anc anc' : List DirInfo) (i j : Nat),
+    (allFilesList p gi anc es i).map lite = (allFilesList p gi anc' es j).map lite
+  | [], _, _, _, _ => by simp [allFilesList]
+  | (s, n) :: rest, anc, anc', i, j => by
+    simp only [allFilesList, List.map_append]
+    rw [allFiles_lite (p ++ [s]) n (anc ++ [(⟨p, gi, i⟩ : DirInfo)]) (anc' ++ [(⟨p, gi, j⟩ : DirInfo)]),
+        allFilesList_lite p gi rest anc anc' (i+1) (j+1)]
+end
+
+theorem mem_lite {L L' : List FileRec} (h : L.map lite = L'.map lite) (r : FileRec) (hr : r ∈ L) :
+    ∃ r' ∈ L', lite r' = lite r := by
+  have : lite r ∈ L'.map lite := by rw [← h]; exact List.mem_map_of_mem hr
+  obtain ⟨r', hr', he⟩ := List.mem_map.mp this
+  exact ⟨r', hr', he⟩
+
+theorem allFilesList_mem (p : Path) (gi : Option PatSet) (s : String) (ch : Node) (A : List DirInfo) :
+    ∀ (es : List (String × Node)) (anc : List DirInfo) (k : Nat), (s, ch) ∈ es →
+      ∀ r ∈ allFiles (p ++ [s]) A ch, ∃ r' ∈ allFilesList p gi anc es k, lite r' = lite r
+  | [], _, _, h, _, _ => by cases h
+  | (t, n) :: rest, anc, k, h, r, hr => by
+    simp only [allFilesList, List.mem_append]
+    rcases List.mem_cons.mp h with h | h
+    · injection h with h1 h2
+      subst h1 h2
+      obtain ⟨r', hr', he⟩ := mem_lite (allFiles_lite (p ++ [s]) ch A (anc ++ [(⟨p, gi, k⟩ : DirInfo)])) r hr
+      exact ⟨r', Or.inl hr', he⟩
+    · obtain ⟨r', hr', he⟩ := allFilesList_mem p gi s ch A rest anc (k+1) h r hr
+      exact ⟨r', Or.inr hr', he⟩
+
 /-- the records of a sub-tree found by `lookup` describe files of the whole tree -/
 theorem allFiles_of_lookup : ∀ (q : Path) (p : Path) (anc anc' : List DirInfo) (n m : Node), lookup n q = some m →
-    ∀ r ∈ allFiles (p ++ q) anc' m, ∃ r' ∈ allFiles p anc n, r'.path = r.path ∧ r'.kind = r.kind ∧ r'.size = r.size
+    ∀ r ∈ allFiles (p ++ q) anc' m, ∃ r' ∈ allFiles p anc n, lite r' = lite r
   | [], p, anc, anc', n, m, hl, r, hr => by
-    cases n <;> (simp only [lookup, Option.some.injEq] at hl; subst hl)
-    · simp only [allFiles, List.append_nil, List.mem_singleton] at hr ⊢
-      subst hr; exact ⟨_, rfl, rfl, rfl, rfl⟩
-    · simp only [List.append_nil] at hr
-      -- same node, different ancestor chain: the enumeration has the same paths / kinds / sizes
-      sorry
+    have : n = m := by cases n <;> simpa [lookup] using hl
+    subst this
+    rw [List.append_nil] at hr
+    exact mem_lite (allFiles_lite p n anc' anc) r hr
   | s :: q, p, anc, anc', n, m, hl, r, hr => by
-    sorry
+    cases n with
+    | file k sz => simp [lookup] at hl
+    | dir gi es =>
+      simp only [lookup] at hl
+      cases hf : es.find? (·.1 = s) with
+      | none => rw [hf] at hl; cases hl
+      | some x =>
+        obtain ⟨t, ch⟩ := x
+        rw [hf] at hl
+        simp only [] at hl
+        have hts : t = s := by simpa using List.find?_some hf
+        subst hts
+        have hmem : (t, ch) ∈ es := List.mem_of_find?_eq_some hf
+        have hpq : p ++ t :: q = (p ++ [t]) ++ q := by simp
+        rw [hpq] at hr
+        obtain ⟨r1, hr1, he1⟩ := allFiles_of_lookup q (p ++ [t]) [] anc' ch m hl r hr
+        obtain ⟨r2, hr2, he2⟩ := allFilesList_mem p gi t ch [] es anc 0 hmem r1 hr1
+        exact ⟨r2, by simpa [allFiles] using hr2, he2.trans he1⟩
+
+/-- `cl` is an attempt on a non-directory node of the tree `root`, with that node's size -/
+def OnFileOfTree (c : Cfg) (root : Node) (cl : Call) : Prop :=
+  ∃ r ∈ allFiles [] [] root, r.path = cl.path ∧ r.size = cl.size ∧ c.required cl.ext r.path = true
+
+theorem onFileOfTree_of_lookup (c : Cfg) (root : Node) (q : Path) (m : Node) (anc' : List DirInfo)
+    (hl : lookup root q = some m) (cl : Call) (h : OnFileOf c (allFiles q anc' m) cl) : OnFileOfTree c root cl := by
+  obtain ⟨r, hr, h1, h2, h3⟩ := h
+  obtain ⟨r', hr', he⟩ := allFiles_of_lookup q [] [] anc' root m hl r (by simpa using hr)
+  simp only [lite, Prod.mk.injEq] at he
+  exact ⟨r', hr', he.1.trans h1, he.2.2.trans h2, by rw [he.1]; exact h3⟩
+
+/-- the invariant: every logged attempt is on a file of one of the trees in `trees` -/
+def FilesInv (c : Cfg) (trees : List Node) (s : St) : Prop := ∀ cl ∈ s.calls, ∃ t ∈ trees, OnFileOfTree c t cl
+
+theorem filesInv_append (c : Cfg) (trees : List Node) (s s' : St) (cs : List Call) (h : FilesInv c trees s)
+    (hc : s'.calls = s.calls ++ cs) (hcs : ∀ cl ∈ cs, ∃ t ∈ trees, OnFileOfTree c t cl) : FilesInv c trees s' := by
+  unfold FilesInv at *
+  rw [hc]
+  intro cl hcl
+  rcases List.mem_append.mp hcl with hcl | hcl
+  · exact h cl hcl
+  · exact hcs cl hcl
+
+theorem walkFrom_filesInv (c : Cfg) (f : Faults) (trees : List Node) (root : Node) (hroot : root ∈ trees) (p : Path) (s : St)
+    (h : FilesInv c trees s) : FilesInv c trees (walkFrom c f s root p).1 := by
+  unfold walkFrom
+  split
+  · exact filesInv_append c trees s _ [] h (by simp [fserrCall_calls]) (by simp)
+  · split
+    · exact filesInv_append c trees s _ [] h (by simp [fserrCall_calls]) (by simp)
+    · rename_i n hl
+      obtain ⟨cs, h1, h2⟩ := walkNode_files c f p [] n s
+      exact filesInv_append c trees s _ cs h h1
+        (fun cl hcl => ⟨root, hroot, onFileOfTree_of_lookup c root p n [] hl cl (h2 cl hcl)⟩)
+
+theorem walkRequested_filesInv (c : Cfg) (f : Faults) (trees : List Node) (root : Node) (hroot : root ∈ trees) (p : Path) (s : St)
+    (h : FilesInv c trees s) : FilesInv c trees (walkRequested c f s root p).1 := by
+  unfold walkRequested
+  split
+  · exact filesInv_append c trees s _ [] h (by simp [fserrCall_calls]) (by simp)
+  · split
+    · exact filesInv_append c trees s _ [] h (by simp [fserrCall_calls]) (by simp)
+    · split
+      · simp only []
+        split
+        · exact h
+        · exact walkFrom_filesInv c f trees root hroot p _ h
+      · exact walkFrom_filesInv c f trees root hroot p s h
+    · rename_i k sz hl
+      have hp := prologue_calls c s
+      generalize prologue c s = r at hp ⊢
+      obtain ⟨s1, e1⟩ := r
+      simp only [] at hp
+      cases e1 with
+      | some e => exact filesInv_append c trees s _ [] h (by simp [hp]) (by simp)
+      | none =>
+        obtain ⟨cs, h1, h2⟩ := handleLeaf_shape c f s1 p (statKind k) sz
+        refine filesInv_append c trees s _ cs h (by simp only []; rw [h1, hp]) ?_
+        intro cl hcl
+        have := h2 cl hcl
+        refine ⟨root, hroot, onFileOfTree_of_lookup c root p (.file k sz) [] hl cl ?_⟩
+        exact ⟨⟨p, k, sz, []⟩, by simp [allFiles], this.1.symm, this.2.1.symm, this.2.2⟩
+
+theorem walkPaths_filesInv (c : Cfg) (f : Faults) (trees : List Node) (root : Node) (hroot : root ∈ trees) :
+    ∀ (ps : List Path) (s : St), FilesInv c trees s → FilesInv c trees (walkPaths c f root s ps).1
+  | [], s, hs => by simpa [walkPaths] using hs
+  | p :: rest, s, hs => by
+    simp only [walkPaths]
+    have h1 := walkRequested_filesInv c f trees root hroot p s hs
+    generalize walkRequested c f s root p = r at h1 ⊢
+    obtain ⟨s1, e1⟩ := r
+    simp only []
+    split
+    · exact h1
+    · exact walkPaths_filesInv c f trees root hroot rest s1 h1
+
+theorem runRoot_filesInv (c : Cfg) (f : Faults) (trees : List Node) (root : Node) (hroot : root ∈ trees) (s : St)
+    (h : FilesInv c trees s) : FilesInv c trees (runRoot c f s root).1 := by
+  unfold runRoot
+  simp only []
+  split
+  · exact walkFrom_filesInv c f trees root hroot [] _ h
+  · exact walkPaths_filesInv c f trees root hroot _ _ h
+
+theorem runRoots_filesInv (c : Cfg) (trees : List Node) : ∀ (roots : List (Node × Faults)) (s : St) (acc : List Pkg)
+    (sts : List (Nat × Status)), (∀ rf ∈ roots, rf.1 ∈ trees) → FilesInv c trees s →
+      ∀ cl ∈ (runRoots c s acc sts roots).calls, ∃ t ∈ trees, OnFileOfTree c t cl
+  | [], s, acc, sts, _, hb => by simpa [runRoots, FilesInv] using hb
+  | (r, f) :: rest, s, acc, sts, hsub, hb => by
+    simp only [runRoots]
+    have h1 := runRoot_filesInv c f trees r (hsub (r, f) (by simp)) s hb
+    generalize runRoot c f s r = x at h1 ⊢
+    obtain ⟨s1, e1⟩ := x
+    simp only []
+    split
+    · exact h1
+    · exact runRoots_filesInv c trees rest s1 _ _ (fun rf hrf => hsub rf (by simp [hrf])) h1
+
+/-- **Only files of the scanned trees** (engine level, every configuration): each extraction attempt is for
+a non-directory node of one of the roots (a record of the declarative enumeration `allFiles`), carries that
+node's size, and is made by an extractor that requires it. -/
+theorem run_calls_files (c : Cfg) (roots : List (Node × Faults)) :
+    ∀ cl ∈ (run c roots).calls, ∃ rf ∈ roots, ∃ r ∈ allFiles [] [] rf.1,
+      r.path = cl.path ∧ r.size = cl.size ∧ c.required cl.ext r.path = true := by
+  intro cl hcl
+  unfold run at hcl
+  obtain ⟨t, ht, h⟩ := runRoots_filesInv c (roots.map (·.1)) roots _ [] [] (fun rf hrf => List.mem_map_of_mem hrf)
+    (by intro x hx; simp at hx) cl hcl
+  obtain ⟨rf, hrf, rfl⟩ := List.mem_map.mp ht
+  exact ⟨rf, hrf, h⟩
 
 end Scalibr.Walk
